@@ -10,17 +10,17 @@ T = {
  'C09': ('fault_enumeration', 'enumeration of string length 0..160 x distance 0..70(+) between string end and an unmapped page x benign/hostile trailing bytes x every Quote kernel of the build (static AVX2, static SSE4.2, dispatch incl. both clones, sanitizer path), destination of exactly 6n+35 bytes at a guard page; byte contents seeded; oracle = byte scanner derived from the statement + length bound + neighbour independence',
          'Length/distance grid is complete up to the stated bounds; byte contents are sampled (6 class mixes + one special byte at every position for n<=70).', '3/C09'),
  'C11': ('fault_enumeration', 'for sampled texts (valid and mutated) and paths, EVERY prefix length is placed end-flush to an unmapped page, start-flush after one, and mid-page between JSON-looking hostile bytes; oracle = no fault, slice within input, offset<=len on success, identical result for the three placements; GetOnDemand and Document::ParseOnDemand',
-         'Texts and paths are sampled; prefixes and placements are enumerated completely per text. Whether the slice is the RIGHT one (C10) is not judged.', '3/C11'),
+         'Texts and paths are sampled; prefixes and placements are enumerated completely per text; flavours: static AVX2, static SSE4.2, runtime dispatch, ASan. Whether the slice is the RIGHT one (C10) is not judged.', '3/C11'),
  'C12': ('exploration', 'seeded search over mutation-API histories (all listed operations, CreateMap/DestroyMap anywhere) on three allocator flavours x SimMem (realloc move vs in place, stale fill, guard pages, StringCopy failure); oracle = ordered-container reference model compared by full structural walk and lookup agreement after every operation, two memory environments',
          'Histories are sampled (<=60 ops, small key alphabet); RemoveMember of a duplicated key while a map exists is not issued (multimap may pick either).', '3/C12'),
  'C13': ('exploration', 'seeded search over histories incl. document move/swap/reset, Parse/ParseOnDemand/ParseSchema on valid and invalid text, CopyFrom, teardown after a random prefix (crash analogue) on allocators that really free; oracle = SimMem ledger (exactly-once, provider, nothing live at quiescence), freed blocks become PROT_NONE, model walk of ALL documents after every op (copy independence), caller buffers released right after each call',
          'One known finding (D5, earlier ParseSchema text buffers) is recognised by an exact signature; every other leak is a violation.', '3/C13'),
  'C14': ('fault_enumeration', 'enumeration of length 0..130 x both operands at distances 0..40(+) from an unmapped page x mismatch position x equal/different bytes after the operands for InlinedMemcmpEq/InlinedMemcmp of every kernel in the build (static AVX2, static SSE4.2, both clones in the dispatch build), oracle = memcmp; plus API lookups (both FindMember overloads, HasMember, with/without map) on keys and probes ending at guard pages',
-         'Interior distance pairs (both > 8) are thinned to every third; contents sampled.', '3/C14'),
+         'Interior distance pairs (both > 8) are thinned to every third; contents sampled; one run in 400 compares operands of 2^32+ bytes (zero pages).', '3/C14'),
  'C15': ('exploration', 'the same seeded plans (Parse incl. numbers of every digit count, GetOnDemand, UpdateLazy, build+Serialize; inputs shifted 0..65 bytes) are executed in static AVX2, static SSE4.2, runtime dispatch, ASan AVX2 and ASan SSE4.2 builds; the driver compares per-run observation digests (error code/offset exempted only when the reference parser locates the first fault inside a string literal)',
          'Input space sampled. The dispatch build resolves to the AVX2 clones on this CPU; its SSE clones are exercised directly only in C09/C14.', '3/C15'),
  'C16': ('exploration', 'seeded search over Malloc/Realloc/Clear/copy/move/destroy histories x chunk capacity x policy (simple, adaptive) x constructor (default, supplied base, aligned/misaligned user buffer) x chunk allocation failure; oracle = bump-allocator model (alignment, inside one chunk, disjointness, painted contents re-verified after every op, in-place growth exactly when the model says, Size/Capacity, chunks returned exactly once)',
-         'Histories sampled (<=70 ops).', '3/C16'),
+         'Histories sampled (<=70 ops); one run in 150 is a history over a single 9 GiB chunk (virtual memory only) crossing the 4 GiB line, skipped in the ASan flavour.', '3/C16'),
  'C17': ('exploration', 'real threads serialised by a seeded scheduler that is invisible to ThreadSanitizer (uniform and PCT-style picks, yield points inside SpinLock and the pool critical sections); families: independent documents, shared read-only document (incl. operator[] misses), locked shared pool; oracle = TSan reports, per-thread model, post-join disjointness/contents, bounded progress',
          'Schedules sampled; TSan is happens-before based (schedule independent for executed accesses).', '3/C17'),
  'C18': ('exploration', 'seeded search over pairs/triples of related documents (same value, member-permuted, one-leaf/one-key/one-kind/one-length near misses, unrelated) built through different histories (parse, API, copy, overwrite), allocator flavours, capacities and map presence; oracle = reflexive/symmetric/negation laws and (A==B) <=> model value equality, Parse(Dump(A))==A, two memory environments',
@@ -52,6 +52,6 @@ m = dict(version=1,
   engines=[dict(name='simsonic', path='/verif/sim', serves_properties=sorted(T), kind_free_text='deterministic simulator: seeded plan generator, SimMem memory environment (guard pages, fills, ledger, failure injection), SimSched thread scheduler, reference JSON model, Python driver with delta-debugging shrinker')],
   checks=checks,
   not_applicable=[dict(property_id=k, reason=v) for k, v in sorted(NA.items())],
-  notes='Known findings: /verif/known_findings.json. Seeded breakages used to test the checks: /verif/seeded/. VERIF_SEED selects the batch; VERIF_SECONDS overrides the search time.')
+  notes='DESIGN.md section 9 describes what is built. Known findings: /verif/known_findings.json. Seeded breakages used to test the checks: /verif/seeded/. VERIF_SEED selects the batch; VERIF_SECONDS overrides the search time.')
 json.dump(m, open('/verif/MANIFEST.json', 'w'), indent=1)
 print('ok', len(checks), 'checks')
